@@ -545,6 +545,9 @@ def rule_record(ctx):
                      "%s falls through to the AssertionError of _getCipherSettings" % lab, fc.loc())
             continue
         got = (assigned(facts, "keyLength"), assigned(facts, "ivLength"), assigned(facts, "createCipherFunc"))
+        rets = [f[1] for f in facts if f[0] == "return"]
+        if got == ([], [], []) and len(rets) == 1 and isinstance(rets[0], tuple) and len(rets[0]) == 3:
+            got = ([rets[0][0]], [rets[0][1]], [rets[0][2]])
         exp = ([p["keylen"]], [p["ivlen"]], ["name:" + p["ctor"] if p["ctor"] else None])
         ctx.check(R, got == exp, fc.qname, "%s cipher settings" % lab,
                   "%s gets (key, iv, constructor) = %s but its name implies %s" % (lab, got, exp),
@@ -555,6 +558,9 @@ def rule_record(ctx):
                      "%s falls through to the AssertionError of _getMacSettings" % lab, fm.loc())
             continue
         got = (assigned(facts, "macLength"), assigned(facts, "digestmod"))
+        rets = [f[1] for f in facts if f[0] == "return"]
+        if got == ([], []) and len(rets) == 1 and isinstance(rets[0], tuple) and len(rets[0]) == 2:
+            got = ([rets[0][0]], [rets[0][1]])      # `return length, digest` straight from the arm
         if p["aead"]:
             exp = ([0], [None])
         else:
